@@ -89,6 +89,10 @@ func (ww *conversionVisitor) visitServiceMethodNode(service *serviceBuilder, nod
 	methodBuilder.desc.OutputType = gl.Ptr(node.OutputType)
 
 	if node.OutputType == "google.api.HttpBody" {
+		// not a message of this package: the absolute name, like every other
+		// well-known type (in package x.google.v1 the relative name would be
+		// looked up under x.google)
+		methodBuilder.desc.OutputType = gl.Ptr(".google.api.HttpBody")
 		ww.file.ensureImport(googleApiHttpBodyImport)
 	}
 
